@@ -53,7 +53,7 @@ pub fn full_alphabet() -> Vec<(String, Sym)> {
                 v.push((format!("find_node want={w} src{src} tid{tl}"), vec![(src, format!("fn {w} {t}"))]));
                 v.push((format!("get_peers want={w} src{src} tid{tl}"), vec![(src, format!("gp 1 {w} {t}"))]));
             }
-            for port in ["7777", "implied"] {
+            for port in ["7777", "implied", "implied+7777", "notimplied+7777"] {
                 for tok in ["valid", "of:1", "random", "short", "empty", "plus"] {
                     let other = if src == 1 { "of:0" } else { tok };
                     let tok = if tok == "of:1" { other } else { tok };
